@@ -23,7 +23,7 @@ Nothing in this file looks at snaxc.util.dispatching_rules.
 
 Options of gen_program: `sync_ops` (pre-existing barriers), `dealloc` (memref.dealloc of buffers allocated in the same block),
 `xdma` (needs the accelerator "snax_xdma" registered in the context: make_ctx(extra_accelerators={"snax_xdma":
-SNAXXDMAAccelerator})), `multi_block` (18% of the programs get 2-4 blocks), `helper` (12% get a second function @helper with the
+SNAXXDMAAccelerator})), `multi_block` (18% of the programs get 2-4 blocks), `helper` (20% get a second function @helper with the
 same signature, called once from @main's entry block; 3% of the modules already declare @snax_cluster_core_idx).
 Runtime: execute @main; memref arguments are static (8x8 / 16); %n0 %n1 in 0..3 keep every induction variable <= 2 so that
 4x4 subviews with induction-variable offsets stay inside the 8x8 buffers.
@@ -361,7 +361,7 @@ def _fresh_scope():
 
 
 def gen_program(rng, sync_ops=False, dealloc=False, xdma=True, multi_block=True, helper=True) -> CoresProgram:
-    """One module: @main (the function to execute), optionally (12%, `helper`) a second function @helper with the same
+    """One module: @main (the function to execute), optionally (20%, `helper`) a second function @helper (private in half of the cases) with the same
     signature that @main calls once, optionally (3%) an already present declaration of @snax_cluster_core_idx."""
     g = _G(rng, sync_ops, dealloc, xdma)
     mb = multi_block and rng.random() < 0.18
@@ -370,14 +370,18 @@ def gen_program(rng, sync_ops=False, dealloc=False, xdma=True, multi_block=True,
     names = ", ".join("%" + n for n in ARG_NAMES)
     funcs = []
     call = []
-    if helper and rng.random() < 0.12:
+    if helper and rng.random() < 0.2:
         g.features.add("helper-function")
         g.skel.append("helper{")
         hbody = _body(g, rng, _fresh_scope(), False)
         g.skel.append("}")
         hconsts = sorted(g.consts)
         g.consts = set()
-        funcs.append((" @helper", hconsts, hbody))
+        # a helper is often not part of the module's interface: private definition (with a body)
+        vis = " private" if rng.random() < 0.5 else ""
+        if vis:
+            g.features.add("helper-function-private")
+        funcs.append((vis + " @helper", hconsts, hbody))
         call = [f"  func.call @helper({names}) : ({types}) -> ()"]
     body = _body(g, rng, _fresh_scope(), mb)
     if call:
